@@ -151,7 +151,8 @@ def wait_fn(a, tier):
     node_of = {r: perm[r] + 1 for r in range(3)}
     prep = {i: [] for i in range(4)}
     start = {i: [] for i in range(4)}
-    prep[0] = [("cp",), ("pub", "P", vals[0], "default", [RT[0]])]
+    # the root first gives up waiting for an optional dependency nobody provides: the cancelled wait must leave nothing behind
+    prep[0] = [("giveup", RT[4], "never"), ("cp",), ("pub", "P", vals[0], "default", [RT[0]])]
     for r in range(3):
         nd = node_of[r]
         waits = [("wait", f"w{nd}<-{node_of[p]}", RT[node_of[p]], "default") for (w, p) in edges if w == r]
@@ -205,3 +206,77 @@ WAIT = Harness(
 )
 
 HARNESSES = [ORDER, WAIT]
+
+
+# ------------------------------------------------------------------------------ I-config
+from asphalt.core import Component  # noqa: E402
+
+
+def cfg_params(tier):
+    return [P("shared", 0, 1), P("nested", 0, 1), P("typed", 0, 1)]
+
+
+@guard
+def cfg_fn(a, tier):
+    shared, nested, typed = pick(a["shared"], 2), pick(a["nested"], 2), pick(a["typed"], 2)
+    log = []
+
+    class Leaf(Component):
+        def __init__(self, tag=None, **kw):
+            log.append(("init", "leaf", tag))
+
+        async def start(self):
+            log.append(("start", "leaf"))
+
+    class Mid(Component):
+        def __init__(self, **kw):
+            log.append(("init", "mid"))
+
+    class Root(Component):
+        def __init__(self, **kw):
+            log.append(("init", "root"))
+
+    one = {"type": Leaf, "tag": 1} if typed else {"tag": 1, "type": Leaf}
+    other = one if shared else dict(one)
+    children = {"c1": one, "c2": other}
+    if nested:
+        children = {"m": {"type": Mid, "components": children}}
+    config = {"components": children}
+    outs = []
+
+    def start_once():
+        log.clear()
+
+        async def main():
+            async with Context():
+                await start_component(Root, config, timeout=100)
+
+        _, exc, _k = run(main)
+        return exc, list(log)
+
+    e1, l1 = start_once()
+    e2, l2 = start_once()
+    summary = {"two_children_share_one_config_mapping": bool(shared), "children_nested_under_a_config_only_parent": bool(nested)}
+    if e1 is not None:
+        return FAIL(f"config:first-start-failed:{type(e1).__name__}:shared={shared}", repr(e1), summary)
+    want = sum(1 for e in l1 if e == ("init", "leaf", 1))
+    if want != 2 or l1.count(("start", "leaf")) != 2:
+        return FAIL("config:hierarchy-not-fully-instantiated", l1, summary)
+    if e2 is not None or l2 != l1:
+        return FAIL(f"config:second-start-from-same-config-differs:{type(e2).__name__ if e2 else 'log'}", f"{e2!r} {l2}", summary)
+    return OK(summary, True)
+
+
+ICFG = Harness(
+    prop="C05",
+    name="I-config",
+    fn=cfg_fn,
+    params=cfg_params,
+    cube=lambda tier: 0,
+    title="config-only children, two of them given the very same mapping object; the same configuration started twice",
+    bound_text=lambda tier: "shared / separate child mappings x directly under the root / under a config-only parent x key order",
+    oracle="the whole hierarchy is instantiated and started on both starts (same log), no error",
+    outside="-",
+    stubs=STUBS_COMMON,
+)
+HARNESSES.append(ICFG)
